@@ -43,6 +43,8 @@ type Item struct {
 	Recv  string `json:"recv"`
 	// Prefix for enum members
 	Prefix string `json:"prefix"`
+	// Extern: (kind=func) same-package functions called but not translated; they become parameters
+	Extern []string `json:"extern"`
 }
 
 type Conf struct {
@@ -64,6 +66,11 @@ func (f *fakeImporter) Import(path string) (*types.Package, error) {
 		return types.Unsafe, nil
 	}
 	if p, ok := f.m[path]; ok {
+		return p, nil
+	}
+	if path == "time" {
+		p := fakeTimePkg()
+		f.m[path] = p
 		return p, nil
 	}
 	name := path[strings.LastIndex(path, "/")+1:]
@@ -350,6 +357,8 @@ func main() {
 				emitEnum(p, it, &sb)
 			case "maptable", "strtable":
 				emitMapTable(p, it, &sb)
+			case "strztable":
+				emitStrZTable(p, it, &sb)
 			case "func":
 				emitFunc(p, it, &sb)
 			default:
